@@ -544,6 +544,16 @@ func fixed(c *reg.Ctx) {
 	w := tk.NewListBox(tk.ListBoxSpec{State: tk.ListBoxState{Items: its, Selected: 0}})
 	renderWidget(c, "ListBox", "WListBox", "listbox-vertical-multiline-overflow", `items="a\nb","c\nd\ne\nf\ng","h" selected=0`, 10, 3,
 		func() *term.Buffer { return w.Render(10, 3) })
+	// ExtendStyle with no room for the right spacing (content width == padding)
+	its2 := items{ui.T("x"), ui.T("x"), ui.T("x"), ui.T(" a ba "), ui.T("x")}
+	w2 := tk.NewListBox(tk.ListBoxSpec{Padding: 1, ExtendStyle: true, State: tk.ListBoxState{Items: its2, Selected: 2}})
+	renderWidget(c, "ListBox", "WListBox", "listbox-extendstyle-empty-spacing", `padding=1 extend=true items=x,x,x," a ba ",x selected=2`, 2, 3,
+		func() *term.Buffer { return w2.Render(2, 3) })
+	// horizontal layout with the selection out of range
+	its3 := items{ui.T("x"), ui.T("x"), ui.T("aa文a中")}
+	w3 := tk.NewListBox(tk.ListBoxSpec{Horizontal: true, Padding: 1, State: tk.ListBoxState{Items: its3, Selected: -1}})
+	renderWidget(c, "ListBox", "WListBox", "listbox-horizontal-selection-out-of-range", `horizontal=true padding=1 items=x,x,"aa文a中" selected=-1`, 3, 1,
+		func() *term.Buffer { return w3.Render(3, 1) })
 }
 
 func run(c *reg.Ctx) {
